@@ -165,6 +165,7 @@ class Client:
         self.close_called = False
         self.close_results = []
         self.code_calls = 0
+        self.code_api = []
         self.helper = None
         self.fired = []            # automat transitions of the current step
         with pinned_urandom(side):
@@ -477,17 +478,27 @@ class MailboxWorld:
         self._kill(conn, ConnectionDone())
 
     # application actions
+    def _code_api(self, cl, name, f, *a):
+        conn = self.live_conn(cl)
+        before = len(conn.c2s) if conn else 0
+        r = cl.api(name, f, *a)
+        conn2 = self.live_conn(cl)
+        after = len(conn2.c2s) if conn2 else 0
+        cl.code_api.append({"call": name, "res": type(r).__name__ if isinstance(r, Exception) else "ok",
+                            "sentAfter": max(0, after - before) if conn2 is conn else 0})
+        return r
+
     def _do_AppSetCode(self, act):
         cl = self.clients[act["c"]]
-        cl.api("set_code", cl.w.set_code, act["code"])
+        self._code_api(cl, "set_code", cl.w.set_code, act["code"])
 
     def _do_AppAllocate(self, act):
         cl = self.clients[act["c"]]
-        cl.api("allocate_code", cl.w.allocate_code, act.get("n", 2))
+        self._code_api(cl, "allocate_code", cl.w.allocate_code, act.get("n", 2))
 
     def _do_AppInput(self, act):
         cl = self.clients[act["c"]]
-        r = cl.api("input_code", cl.w.input_code)
+        r = self._code_api(cl, "input_code", cl.w.input_code)
         if not isinstance(r, Exception):
             cl.helper = r
 
